@@ -428,7 +428,11 @@ func checkPrecTree(c *explore.Ctx, t *pnode) {
 			c.Count("failures_inherited_from_subtree", 1)
 			continue
 		}
-		c.Violation("C07/"+mode+"/"+clause+"/"+pairClasses(t), text, detail)
+		sig := pairClasses(t)
+		if full == 2 {
+			sig = opClass(t.op) // a redundant parenthesis is lost or kept per parent form, whatever the operand
+		}
+		c.Violation("C07/"+mode+"/"+clause+"/"+sig, text, detail)
 	}
 	c.OutcomeStr(expectShape(t, 0))
 	c.Nontrivial(explore.Hash(printPrec(t, 0)))
